@@ -25,6 +25,9 @@ type harnessSpec struct {
 	Timeout  int    // per query ms (default 20000 quick / 120000 thorough)
 	Bounds   string // human-readable statement of the bounds of this harness
 	Twin     bool   // vacuity twin: harness must come back violated on label "twin"
+	// ReplayAll: every explored path is replayed natively (not a sample): harnesses whose native run also
+	// exercises real goroutine schedules that the deterministic scheduler of the engine does not.
+	ReplayAll bool
 	// Invariant lists VsEmit keys that must be identical on all paths of a case.
 	Invariant []string
 }
@@ -187,8 +190,8 @@ var registry = []propertySpec{
 				Bounds: "two symbolic valid year-granularity dates (years 1..9999), maxYears = 3. Month and day granularity and a symbolic maxYears were tried (18 cases are written) and dropped from both tiers: cvc5 and z3 answer unknown on the nonlinear float queries within 60 s"},
 			{Name: "VerifC12_DateMonotone", Quick: tierSpec{Cases: 1}, Thorough: tierSpec{Cases: 1}, Sched: -1, Solver: "cvc5", Timeout: 60000,
 				Bounds: "three symbolic year-granularity dates, maxYears = 3 (the other 8 granularity pairs do not terminate within the budget and are not claimed)"},
-			{Name: "VerifC12_Weighted", Quick: tierSpec{Cases: 2}, Thorough: tierSpec{Cases: 2}, Sched: -1,
-				Bounds: "four symbolic component scores in [0,1]; default weights and symbolic non-negative weights summing to 1"},
+			{Name: "VerifC12_Weighted", Quick: tierSpec{Cases: 3}, Thorough: tierSpec{Cases: 3}, Sched: -1,
+				Bounds: "four symbolic component scores in [0,1]; default weights, symbolic non-negative weights summing to 1, and every weight vector over quarter steps (0, 0.25, ... 1, exact in binary64) summing to 1"},
 			{Name: "VerifC12_Surrounding", Quick: tierSpec{Cases: 32}, Thorough: tierSpec{Cases: 32}, Sched: -1,
 				Bounds: "two individuals (one symbolic given-name byte each) whose parents family and spouse-and-child family are present or missing independently on each side (4 x 4 shapes) x forced / skippable full calculation"},
 			{Name: "VerifC12_Lists", Quick: tierSpec{Cases: 9}, Thorough: tierSpec{Cases: 9}, Sched: -1,
@@ -237,8 +240,8 @@ var registry = []propertySpec{
 				Bounds: "a 4-person / 1-family / 1-source document in 3 visibility modes x jobs 1,2, preceded or not by publishing another document in the same execution, under four map iteration policies applied to every map range (insertion order, reversed, rotated, adjacent pairs swapped) with the deterministic goroutine scheduler"},
 			{Name: "VerifC19_Races", Pkg: "html", Quick: tierSpec{Cases: 6}, Thorough: tierSpec{Cases: 6}, Sched: -2, Race: true,
 				Bounds: "publishing the family document with 2 and 3 jobs x 3 visibilities under the happens-before monitor (fair schedule); each report is confirmed natively with the Go race detector"},
-			{Name: "VerifC19_Faults", Pkg: "html", Quick: tierSpec{Cases: 4}, Thorough: tierSpec{Cases: 4}, Sched: -1,
-				Bounds: "file writer failing at the k-th file for every k, jobs 1 and 2"},
+			{Name: "VerifC19_Faults", Pkg: "html", Quick: tierSpec{Cases: 4}, Thorough: tierSpec{Cases: 4}, Sched: -1, ReplayAll: true,
+				Bounds: "file writer failing at the k-th file for every k, jobs 1 and 2 (every path is also run natively, under the Go scheduler)"},
 		},
 		Assumptions: []string{"goroutines are scheduled cooperatively (run until blocked, lowest id first): interleavings at arbitrary instructions and the Go memory model are outside the engine"},
 		Outside:     "data races and real thread schedules, jobs > 2, DirectoryFileWriter and the file system, documents beyond the templates",
